@@ -12,8 +12,10 @@ sys.path.insert(0, os.path.dirname(os.path.abspath(__file__)))
 def configs(kind, tier):
     precs = (None, 1, 2, 15) if tier == "thorough" else (None, 1, 15)
     if kind == "generate":
-        return [(a, b, p) for a in (False, True) for b in (False, True) for p in (precs + ((3, 7) if tier == "thorough" else ()))
-                if p is None or (a and b)]
+        out = [(False, a, b, p) for a in (False, True) for b in (False, True) for p in (precs + ((3, 7) if tier == "thorough" else ()))
+               if p is None or (a and b)]
+        out += [(True, a, b, p) for a in (False, True) for b in (False, True) for p in precs]
+        return out
     out = []
     for hv in (False, True):
         for hm in (False, True):
